@@ -57,9 +57,17 @@ func xName(rdns [][]xATV) []byte {
 }
 
 func xCert(subject []byte, nbTag byte, nb string, naTag byte, na string, sigAlg []byte, spki []byte) []byte {
+	return xCertV(3, subject, nbTag, nb, naTag, na, sigAlg, spki)
+}
+
+// xCertV: version 1 certificates omit the [0] version field (DER default)
+func xCertV(version int, subject []byte, nbTag byte, nb string, naTag byte, na string, sigAlg []byte, spki []byte) []byte {
 	issuer := xName([][]xATV{{{[]int{2, 5, 4, 3}, 12, "Hand CA"}}})
-	tbs := xSeq(xTLV(0xA0, xInt(2)), xInt(0x1234), sigAlg, issuer, xSeq(xStr(nbTag, nb), xStr(naTag, na)), subject, spki)
-	return xSeq(tbs, sigAlg, xTLV(0x03, []byte{0}, make([]byte, 64)))
+	parts := [][]byte{xInt(0x1234), sigAlg, issuer, xSeq(xStr(nbTag, nb), xStr(naTag, na)), subject, spki}
+	if version > 1 {
+		parts = append([][]byte{xTLV(0xA0, xInt(int64(version-1)))}, parts...)
+	}
+	return xSeq(xSeq(parts...), sigAlg, xTLV(0x03, []byte{0}, make([]byte, 64)))
 }
 
 func emitCertX(op string, der []byte, exp ...string) {
@@ -120,6 +128,22 @@ func genCertX(tier string, r *rng) {
 		emitCertX("certxpem", xCert(cn("s"), 23, "200101000000Z", 23, "300101000000Z", s.alg, ecSpki), "SIG", s.want)
 	}
 	emitCertX("certxtrust", xCert(cn("trusted"), 23, "200101000000Z", 23, "300101000000Z", ecdsa256, ecSpki), "SUBJ", "CN=trusted", "NB", "2020-01-01", "DESC", "x.509v3")
+	// version 1 and 2 certificates (no extensions): known and unknown signature algorithms
+	for _, v := range []int{1, 2, 3} {
+		for _, sg := range sigs {
+			emitCertX("certx", xCertV(v, cn("v"), 23, "200101000000Z", 23, "300101000000Z", sg.alg, ecSpki), "SIG", sg.want, "DESC", fmt.Sprintf("x.509v%d", v))
+		}
+	}
+	// RSA subject keys whose modulus length is not a multiple of 8
+	for _, bits := range []int{1023, 1025, 2041, 2047} {
+		k, err := rsa.GenerateKey(rand.Reader, bits)
+		if err != nil {
+			continue
+		}
+		sp, _ := x509.MarshalPKIXPublicKey(&k.PublicKey)
+		emitCertX("certx", xCert(cn("k"), 23, "200101000000Z", 23, "300101000000Z", ecdsa256, sp), "KEYALG", "RSA", "KEYSIZE", fmt.Sprintf("%d bits", k.N.BitLen()))
+		emitCertX("certxpem", xCert(cn("k"), 23, "200101000000Z", 23, "300101000000Z", ecdsa256, sp), "KEYALG", "RSA", "KEYSIZE", fmt.Sprintf("%d bits", k.N.BitLen()))
+	}
 	// subject public keys: RSASSA-PSS (same key material as rsaEncryption, other algorithm OID)
 	var spkiParsed struct {
 		Alg asn1.RawValue
